@@ -225,8 +225,22 @@ fn build_specs(thorough: bool, seed: u64) -> Vec<Spec> {
             }
         }
     }
+    // every small shape: all (w,h) in 1..=N x 1..=N x targets x mip on/off; content and filter rotate
+    let n_small = if thorough { 20u32 } else { 9 };
+    for w in 1..=n_small {
+        for h in 1..=n_small {
+            for (ti, &tgt) in targets.iter().enumerate() {
+                for mip in [false, true] {
+                    let k = (w + 3 * h) as usize + ti + seed as usize;
+                    let content = CONTENTS[k % CONTENTS.len()];
+                    let f = FILTERS5[(k / 5) % FILTERS5.len()];
+                    v.push(Spec { w, h, content, tgt, mip, filter: if mip { f } else { "nearest" }, algo: "range", origin: "small-exhaustive" });
+                }
+            }
+        }
+    }
     // random sizes
-    let n_random = if thorough { 60000 } else { 3000 };
+    let n_random = if thorough { 150000 } else { 3000 };
     let mut rng = Rng::for_case(seed, 0xC16, 77);
     for k in 0..n_random {
         let (w, h) = random_size(&mut rng);
